@@ -71,7 +71,7 @@ def render_ref(items, values):
         elif it[0] == "o":
             out += chr(int(it[1], 8))
         elif it[0] == "F":
-            pass
+            break                 # \c: nothing more is printed for this file
         else:
             v = values[it[1]]
             if it[2] != "":
